@@ -2,6 +2,8 @@
 //! Usage: anydb-verif <PROPERTY> [--tier quick|thorough] [--replay <path>]
 
 mod c_crash;
+mod c_proc;
+mod c_lazy;
 mod c_eager;
 mod c_fault;
 mod c_import;
@@ -18,6 +20,9 @@ mod vecmodel;
 use std::{path::PathBuf, time::Instant};
 
 use common::{Ctx, Tier};
+
+#[global_allocator]
+static GLOBAL: c_codec::CountingAlloc = c_codec::CountingAlloc;
 
 fn main() {
     let args: Vec<String> = std::env::args().skip(1).collect();
@@ -74,7 +79,19 @@ fn main() {
     };
     common::install_quiet_panic_hook();
     obs::install();
+    if prop == "c17-shard" {
+        let seed = args.get(1).and_then(|s| s.parse().ok()).unwrap_or(1);
+        let shard = args.get(2).and_then(|s| s.parse().ok()).unwrap_or(0);
+        let secs = args.get(3).and_then(|s| s.parse().ok()).unwrap_or(5.0);
+        common::install_quiet_panic_hook();
+        std::process::exit(c_codec::c17_shard(seed, shard, secs));
+    }
+    if prop == "proc-child" {
+        std::process::exit(c_proc::child_main());
+    }
     let code = match prop.as_str() {
+        "C17" => c_codec::check_c17(&ctx),
+        "C18" => c_proc::check_c18(&ctx),
         "C03" | "C04" | "C07" | "C08" | "C16" | "C20" if ctx.replay.is_some() => c_vec::replay_vec(&ctx, c_vec::replay_cfg(&prop)),
         "C01" => c_raw::check_c01(&ctx),
         "C02" => c_raw::check_c02(&ctx),
@@ -91,6 +108,7 @@ fn main() {
         "C12" => c_crash::check_c12(&ctx),
         "C13" => c_vec::check_c13(&ctx),
         "C14" => c_import::check_c14(&ctx),
+        "C15" => c_lazy::check_c15(&ctx),
         "C16" => c_vec::check_c16(&ctx),
         "dbg-fpi" => {
             use vecdb::{AnyStoredVec, EagerVec, Exit, ImportableVec, LZ4Vec, ReadableVec, Version, WritableVec, ZstdVec, AnyVec};
